@@ -331,6 +331,10 @@ def shard(a):
         x = st.one_of(base, gen.decorations(src, base), gen.edits(valid))
     strat = st.builds(lambda xx: {'rel': rel, 'x': core.enc(xx)}, x)
     core.drive(prop, strat, a['n'], (a['seed'], 'C09', rel, src), res, shrink_skip=a['known'])
+    if kind in ('es.nif', 'union', 'thin'):
+        # every letter at every letter position of a few valid constituent numbers (per-letter branches of the wrapper)
+        for w in gen.class_sweep(src, nbase=3):
+            prop({'rel': rel, 'x': w}, res)
     res.notes['cases_per_relation_source'] = {'%s<-%s' % (rel, src): res.evals}
     return res
 
